@@ -555,6 +555,51 @@ def run_dm(case, rec):
                        "differs_from_result_with_old_widths": changed,
                        "max_rel_diff_to_fresh": core.maxrel(again, ref)})
             rec.bucket("directmodel:widths-changed-on-same-data-object")
+    _run_replaced(rec, rng, model, q)
+
+
+def _run_replaced(rec, rng, model, q):
+    """A calculator whose resolution object the caller replaces before the first evaluation (the way to use one's own
+    q_calc grid, another nsigma or accuracy with DirectModel): what comes back is that object's apply() of the theory on
+    that object's q_calc."""
+    from sasmodels import data as sdata, direct_model, resolution as sres, resolution2d
+    pars = {"radius": 60.0, "sld": 1.0, "sld_solvent": 6.0}
+    qc = np.linspace(0.4*q[0], 1.6*q[-1], 257)
+    for kind in ("pinhole-own-grid", "slit-own-grid", "2d-other-nsigma"):
+        _state["current"], _state["ctx"] = None, None
+        if kind == "2d-other-nsigma":
+            data = sdata.empty_data2D(np.linspace(-0.1, 0.1, 12), resolution=0.05)
+        elif kind == "pinhole-own-grid":
+            data = sdata.empty_data1D(q, resolution=0.08)
+        else:
+            data = sdata.empty_data1D(q, resolution=0.0)
+            data.dx = None
+            data.dxl, data.dxw = np.full(len(q), 0.02), np.zeros(len(q))
+        calc = direct_model.DirectModel(data, model)
+        if kind == "pinhole-own-grid":
+            new = sres.Pinhole1D(q, np.asarray(data.dx, float), q_calc=qc)
+        elif kind == "slit-own-grid":
+            new = sres.Slit1D(q, q_length=np.full(len(q), 0.02), q_width=np.zeros(len(q)), q_calc=qc)
+        else:
+            new = resolution2d.Pinhole2D(data=data, index=calc.index, nsigma=float(rng.uniform(1.5, 2.5)))
+        calc.resolution = new
+        ctx = {"via": "DirectModel with its resolution object replaced before the first evaluation", "setup": kind}
+        try:
+            got = np.asarray(calc(scale=1.0, background=0.0, **pars), float)
+            qin = new.q_calc
+            kern = model.make_kernel([qin] if isinstance(qin, np.ndarray) else list(qin))
+            theory = np.asarray(direct_model.call_kernel(kern, dict(pars, scale=1.0, background=0.0)), float)
+            exp = np.asarray(new.apply(theory), float)
+        except Exception as exc:
+            rec.check("replaced_resolution_is_the_one_applied", False, dict(ctx, exception=repr(exc)[:400]),
+                      key="C03/replaced-resolution")
+            continue
+        ok = got.shape == exp.shape and core.close(got, exp, 1e-10, 1e-13*float(np.max(np.abs(exp))))
+        rec.check("replaced_resolution_is_the_one_applied", ok,
+                  None if ok else dict(ctx, max_rel_err=core.maxrel(got, exp) if got.shape == exp.shape else None,
+                                       returned=got[:6], expected=exp[:6]), key="C03/replaced-resolution")
+        rec.bucket("directmodel:resolution-replaced:" + kind)
+        rec.set_shape(("dm-replaced", kind), True)
 
 
 def run_case(case, rec):
